@@ -12,7 +12,7 @@ FSPOLL_VARIANT = "fspoll-fixed"
 # repaired in /repo (834ed95, 9bc8132); their replays stay in corpus/C17/fspoll_known.txt and are plain
 # violations if they ever show again: fs_poll_restart_with_stat_in_flight_uses_old_ctx,
 # fs_poll_start_error_frees_ctx_with_linked_timer
-KEY_ISDIR = "fs_event_attrib_on_directory_reports_rename_too"
+# repaired in /repo 5f75e89 (plain violation if it returns): fs_event_attrib_on_directory_reports_rename_too
 ENV = dict(os.environ, ASAN_OPTIONS="detect_leaks=0:abort_on_error=0", UV_THREADPOOL_SIZE="1",
            UV_USE_IO_URING="0")
 
@@ -861,11 +861,14 @@ def fe_walk(case, raw):
                 for n, b in g:
                     if b != UV_CHANGE:
                         p = int(real[0][2:].split(",")[0])
-                        if p in dirs:
-                            errs.append("KNOWN:%s: %s of the directory %s is reported to h%d with events=%d "
-                                        "(UV_RENAME set: IN_ISDIR is counted as a rename)" % (KEY_ISDIR, real[0], FE_REL[p], h, b))
-                        else:
-                            errs.append("h%d: the change %s is reported with events=%d, not UV_CHANGE" % (h, real[0], b))
+                        errs.append("h%d: the change %s of %s%s is reported with events=%d, not UV_CHANGE"
+                                    % (h, real[0], "the directory " if p in dirs else "", FE_REL[p], b))
+        # creating a subdirectory is a rename-class event only (IN_CREATE|IN_ISDIR)
+        if len(changes) == 1 and changes[0][1] == "d" and exp:
+            for h, g in got.items():
+                for n, b in g:
+                    if b != UV_RENAME:
+                        errs.append("h%d: the change %s is reported with events=%d, not UV_RENAME" % (h, changes[0], b))
         if peek() == ".":
             pos[0] += 1
         else:
